@@ -163,8 +163,11 @@ def update_tags_case(rng):
     rx = re.compile(refimpl.ref_regex(tree))
     valid = [t for t in (tags_branch if scope == "branch" else tags) if rx.fullmatch(t) and c09._date_ok(tree, t)]
     start = c09.expected_start(scope, cfgv, valid)
-    args = ["update", "--no-fetch"] + projgen.cli_flags({"date": [d2.year, d2.month, d2.day], "flags": flags}) + (["--tag-scope", cli_scope] if cli_scope else [])
-    case = {"kind": "update-tags", "vp": vp, "config_version": cfgv, "tags": tags, "branch_tags": tags_branch, "scope": scope, "cfg_scope": cfg_scope,
+    # every fourth case: a remote is configured and `git fetch` FAILS (remote gone, offline): the run may fail, but it must not fall back
+    # to the config value as if there were no tags
+    fetch_fails = rng.random() < 0.25
+    args = ["update"] + ([] if fetch_fails else ["--no-fetch"]) + projgen.cli_flags({"date": [d2.year, d2.month, d2.day], "flags": flags}) + (["--tag-scope", cli_scope] if cli_scope else [])
+    case = {"kind": "update-tags", "fetch_fails": fetch_fails, "vp": vp, "config_version": cfgv, "tags": tags, "branch_tags": tags_branch, "scope": scope, "cfg_scope": cfg_scope,
             "cli_scope": cli_scope, "start": start, "args": args}
     with sandbox.Project("c01t") as p:
         p.write_text("bumpver.toml", '[bumpver]\ncurrent_version = %s\nversion_pattern = %s\ntag_scope = "%s"\ncommit = false\n[bumpver.file_patterns]\n"bumpver.toml" = [\'current_version = "{version}"\']\n' % (
@@ -172,6 +175,10 @@ def update_tags_case(rng):
         p.add_fake_vcs("git")
         p.fake_set("tags", "".join(t + "\n" for t in tags))
         p.fake_set("tags_branch", "".join(t + "\n" for t in tags_branch))
+        if fetch_fails:
+            p.fake_set("branches", "* main 1a2b3c4 [origin/main] msg\n")
+            p.fake_set("remote_url", "https://example.invalid/x.git\n")
+            p.fake_set("fail_cmd", "fetch")
         before = p.snapshot()
         code, out, exc = sandbox.run_cli(args, p.dir, p.env(), today=dt.date(2026, 9, 29))
         after = p.snapshot()
